@@ -58,9 +58,11 @@ def handleEscape (j : Json) : Json :=
     | "comment" => Text.padComment s (Diff.J.str j "pad").toList
     | "blockcomment" => Text.blockComment s
     | "backticks" => Text.escBacktick s
+    | "readable" => Text.readable s
     | _ => []
   let ev := match Diff.J.str j "fn" with
     | "backticks" => (Text.evalGo ('`' :: out ++ ['`'])).map String.ofList
+    | "readable" => (Text.evalGo ('`' :: out ++ ['`'])).map String.ofList
     | _ => none
   Json.mkObj [("r", Json.str "ok"), ("out", Json.str (String.ofList out)),
     ("eval", match ev with | some v => Json.str v | none => Json.null),
